@@ -402,17 +402,17 @@ theorem step_entry {pyInt : Str → Option Int} {tl ll : Nat} {tp lp : Char} {ta
   have : ¬ ((v.length : Int) < 0) := by omega
   simp only [this, if_false, Int.toNat_natCast, h3]
 
-theorem generateTlv_cons_ok {tl ll : Nat} {tp lp : Char} {t v : Str} {rest : List (Str × Str)} {g : Str}
-    (h : generateTlv tl ll tp lp ((t, v) :: rest) = .ok g) :
+theorem genEntries_cons_ok {tl ll : Nat} {tp lp : Char} {t v : Str} {rest : List (Str × Str)} {g : Str}
+    (h : genEntries tl ll tp lp ((t, v) :: rest) = .ok g) :
     t.length ≤ tl ∧ (decimal v.length).length ≤ ll ∧
-    ∃ r, generateTlv tl ll tp lp rest = .ok r ∧
+    ∃ r, genEntries tl ll tp lp rest = .ok r ∧
       g = (ljust tl tp t ++ rjust ll lp (decimal v.length) ++ v) ++ r := by
-  simp only [generateTlv] at h
+  simp only [genEntries] at h
   cases he : genEntry tl ll tp lp t v with
   | error e => rw [he] at h; cases h
   | ok e =>
     rw [he] at h
-    cases hr : generateTlv tl ll tp lp rest with
+    cases hr : genEntries tl ll tp lp rest with
     | error e' => rw [hr] at h; cases h
     | ok r =>
       rw [hr] at h
@@ -424,16 +424,16 @@ theorem generateTlv_cons_ok {tl ll : Nat} {tp lp : Char} {t v : Str} {rest : Lis
         · cases he
       · cases he
 
-/-- generation succeeds exactly when everything fits -/
-theorem generateTlv_ok_iff (tl ll : Nat) (tp lp : Char) (d : List (Str × Str)) :
-    (∃ g, generateTlv tl ll tp lp d = .ok g) ↔ Fits tl ll d := by
+/-- the entries are written exactly when everything fits -/
+theorem genEntries_ok_iff (tl ll : Nat) (tp lp : Char) (d : List (Str × Str)) :
+    (∃ g, genEntries tl ll tp lp d = .ok g) ↔ Fits tl ll d := by
   induction d with
-  | nil => simp [generateTlv, Fits]
+  | nil => simp [genEntries, Fits]
   | cons e d ih =>
     obtain ⟨t, v⟩ := e
     constructor
     · rintro ⟨g, hg⟩
-      obtain ⟨h1, h2, r, hr, _⟩ := generateTlv_cons_ok hg
+      obtain ⟨h1, h2, r, hr, _⟩ := genEntries_cons_ok hg
       intro e he
       rcases List.mem_cons.mp he with h | h
       · subst h; exact ⟨h1, h2⟩
@@ -444,16 +444,16 @@ theorem generateTlv_ok_iff (tl ll : Nat) (tp lp : Char) (d : List (Str × Str)) 
       have h01 : t.length ≤ tl := h0.1
       have h02 : (decimal v.length).length ≤ ll := h0.2
       refine ⟨(ljust tl tp t ++ rjust ll lp (decimal v.length) ++ v) ++ r, ?_⟩
-      simp only [generateTlv, genEntry, h01, h02, if_true, hr]
+      simp only [genEntries, genEntry, h01, h02, if_true, hr]
 
-/-- the only way generation fails is `AssertionError` -/
-theorem generateTlv_error (tl ll : Nat) (tp lp : Char) (d : List (Str × Str)) (e : PyErr)
-    (h : generateTlv tl ll tp lp d = .error e) : e = .AssertionError := by
+/-- the only way writing the entries fails is `AssertionError` -/
+theorem genEntries_error (tl ll : Nat) (tp lp : Char) (d : List (Str × Str)) (e : PyErr)
+    (h : genEntries tl ll tp lp d = .error e) : e = .AssertionError := by
   induction d with
-  | nil => simp [generateTlv] at h
+  | nil => simp [genEntries] at h
   | cons x d ih =>
     obtain ⟨t, v⟩ := x
-    simp only [generateTlv] at h
+    simp only [genEntries] at h
     cases he : genEntry tl ll tp lp t v with
     | error e' =>
       rw [he] at h
@@ -466,26 +466,26 @@ theorem generateTlv_error (tl ll : Nat) (tp lp : Char) (d : List (Str × Str)) (
       · cases he; rfl
     | ok s =>
       rw [he] at h
-      cases hr : generateTlv tl ll tp lp d with
+      cases hr : genEntries tl ll tp lp d with
       | error e' => rw [hr] at h; cases h; exact ih hr
       | ok r => rw [hr] at h; cases h
 
 /-- parsing what was generated, started after any already consumed prefix -/
 theorem loop_generated {pyInt : Str → Option Int} {tl ll : Nat} {tp lp : Char}
     (hI : IntReads pyInt ll lp) (d : List (Str × Str)) (g : Str)
-    (hg : generateTlv tl ll tp lp d = .ok g) (pre : Str) (fuel : Nat) (hf : d.length < fuel) :
+    (hg : genEntries tl ll tp lp d = .ok g) (pre : Str) (fuel : Nat) (hf : d.length < fuel) :
     let r := loop (step pyInt (pre ++ g) tl ll) (pre ++ g).length fuel pre.length
     r.status = .done ∧ r.off = (pre ++ g).length ∧ r.trips.map Trip.view = d.map (expected tl tp) := by
   induction d generalizing g pre fuel with
   | nil =>
-    simp only [generateTlv] at hg
+    simp only [genEntries] at hg
     cases hg
     cases fuel with
     | zero => simp at hf
     | succ fuel => simp [loop]
   | cons e d ih =>
     obtain ⟨t, v⟩ := e
-    obtain ⟨h1, h2, r, hr, rfl⟩ := generateTlv_cons_ok hg
+    obtain ⟨h1, h2, r, hr, rfl⟩ := genEntries_cons_ok hg
     cases fuel with
     | zero => simp at hf
     | succ fuel =>
@@ -510,17 +510,102 @@ theorem loop_generated {pyInt : Str → Option Int} {tl ll : Nat} {tp lp : Char}
       rfl
 
 theorem generated_length {tl ll : Nat} {tp lp : Char} {d : List (Str × Str)} {g : Str}
-    (hg : generateTlv tl ll tp lp d = .ok g) : d.length ≤ g.length := by
+    (hg : genEntries tl ll tp lp d = .ok g) : d.length ≤ g.length := by
   induction d generalizing g with
   | nil => simp
   | cons e d ih =>
     obtain ⟨t, v⟩ := e
-    obtain ⟨_, h2, r, hr, rfl⟩ := generateTlv_cons_ok hg
+    obtain ⟨_, h2, r, hr, rfl⟩ := genEntries_cons_ok hg
     have := ih hr
     have hpos := Nat.length_toDigits_pos (b := 10) (n := v.length)
     have hB := rjust_length ll lp (decimal v.length) h2
     unfold decimal at h2
     simp only [List.length_cons, List.length_append]
     omega
+
+/-! ### the argument check on `len_padding` (fix C16-c) -/
+
+theorem digitsTail_digit (acc : Nat) (c : Char) (rest : Str) (h : isAsciiDigit c = true) :
+    digitsTail acc (c :: rest) = digitsTail (acc * 10 + digitVal c) rest := by
+  have hu : c ≠ '_' := by intro e; subst e; revert h; decide
+  rw [digitsTail.eq_def]
+  split
+  · rename_i heq; cases heq
+  · rename_i heq; simp only [List.cons.injEq] at heq; exact absurd heq.1 hu
+  · rename_i heq; simp only [List.cons.injEq] at heq; obtain ⟨rfl, rfl⟩ := heq; simp [h]
+
+/-- **the probe is exact**: `int(pad + pad + '1') == 1` holds exactly when the padding is `'0'`
+or a character `int()` strips — a sign, an underscore, another digit, a letter fail it -/
+theorem lenPadOk_iff (lp : Char) : lenPadOk lp = true ↔ (lp = '0' ∨ isIntSpace lp = true) := by
+  unfold lenPadOk
+  constructor
+  · intro h
+    have h1 : pyInt [lp, lp, '1'] = some 1 := by simpa using h
+    cases hsp : isIntSpace lp with
+    | true => exact Or.inr rfl
+    | false =>
+      left
+      have hst : stripInt [lp, lp, '1'] = [lp, lp, '1'] :=
+        stripInt_id _ lp '1' rfl rfl hsp (by decide)
+      unfold pyInt at h1
+      rw [hst] at h1
+      by_cases hplus : lp = '+'
+      · subst hplus; revert h1; decide
+      by_cases hminus : lp = '-'
+      · subst hminus; revert h1; decide
+      have h2 : (digitsNat [lp, lp, '1']).map Int.ofNat = some 1 := by
+        split at h1
+        · rename_i r heq; simp only [List.cons.injEq] at heq; exact absurd heq.1 hplus
+        · rename_i r heq; simp only [List.cons.injEq] at heq; exact absurd heq.1 hminus
+        · exact h1
+      by_cases hd : isAsciiDigit lp = true
+      · have h3 : digitsNat [lp, lp, '1'] = some ((digitVal lp * 10 + digitVal lp) * 10 + 1) := by
+          have h1d : isAsciiDigit '1' = true := by decide
+          simp only [digitsNat, hd, if_true]
+          rw [digitsTail_digit _ _ _ hd, digitsTail_digit _ _ _ h1d]
+          rfl
+        rw [h3] at h2
+        simp only [Option.map_some, Option.some.injEq] at h2
+        have hv : digitVal lp = 0 := by
+          have h4 : ((((digitVal lp * 10 + digitVal lp) * 10 + 1 : Nat) : Int)) = 1 := h2
+          omega
+        simp only [isAsciiDigit, Bool.and_eq_true, decide_eq_true_eq] at hd
+        have hge : 48 ≤ lp.toNat := hd.1
+        have h48 : lp.toNat = 48 := by
+          unfold digitVal at hv
+          have : '0'.toNat = 48 := rfl
+          omega
+        apply Char.ext
+        apply UInt32.toNat_inj.mp
+        exact h48
+      · have : digitsNat [lp, lp, '1'] = none := by
+          simp [digitsNat, hd]
+        rw [this] at h2; cases h2
+  · rintro (h | h)
+    · subst h; decide
+    · have := pyInt_blank_padded 2 1 lp h
+      have hd : decimal 1 = ['1'] := by decide
+      rw [hd] at this
+      simpa using this
+
+/-- an accepted padding is `'0'` or a character `int()` strips -/
+theorem lenPadOk_reads {lp : Char} (h : lenPadOk lp = true) : lp = '0' ∨ isIntSpace lp = true :=
+  (lenPadOk_iff lp).mp h
+
+theorem generateTlv_accepted {lp : Char} (h : lenPadOk lp = true) (tl ll : Nat) (tp : Char)
+    (d : List (Str × Str)) : generateTlv tl ll tp lp d = genEntries tl ll tp lp d := by
+  simp [generateTlv, h]
+
+theorem generateTlv_refused {lp : Char} (h : lenPadOk lp = false) (tl ll : Nat) (tp : Char)
+    (d : List (Str × Str)) : generateTlv tl ll tp lp d = .error .AssertionError := by
+  simp [generateTlv, h]
+
+/-- whatever `generate_tlv` returns was written by the entry loop under an accepted padding -/
+theorem generateTlv_ok {tl ll : Nat} {tp lp : Char} {d : List (Str × Str)} {g : Str}
+    (h : generateTlv tl ll tp lp d = .ok g) : lenPadOk lp = true ∧ genEntries tl ll tp lp d = .ok g := by
+  unfold generateTlv at h
+  split at h
+  · exact ⟨‹_›, h⟩
+  · cases h
 
 end N0.Tlv
